@@ -409,6 +409,9 @@ def make_contour_case(vc, rng, cfg, cells2, cells3):
     else:
         raise Machinery("could not draw a model with a finite support box")
     lo_n, hi_n = cells2 if ndim == 2 else cells3
+    if cfg["grid"] == "small":
+        # the warn path encloses the whole grid; its boundary is the shell of the grid - keep it modest
+        hi_n = min(hi_n, 70 if ndim == 2 else 18)
     limits = []
     for i, (lo, hi) in enumerate(box):
         w = hi - lo
